@@ -1183,6 +1183,8 @@ pub(crate) static mut M_CAS_CALLS: usize = 0;
 pub(crate) static mut M_CAS_OK: usize = 0;
 pub(crate) static mut M_BAD_EXPECTED: usize = 0;
 pub(crate) static mut M_BAD_NEW: usize = 0;
+pub(crate) static mut M_UNPINNED: usize = 0;
+pub(crate) static mut M_C0: [usize; model::POOL] = [0; model::POOL];
 pub(crate) static mut M_REPLACED: usize = 0;
 pub(crate) static mut M_F_CALLS: usize = 0;
 pub(crate) static mut M_F_LAST_ARG: usize = 0;
@@ -1248,6 +1250,18 @@ where
             M_BAD_NEW += 1;
         }
     }
+    // requires (AsRaw: a raw `current` is only an address): the caller keeps the value it expects
+    // alive until the exchange – here: rcu still holds the guard it passed to the closure
+    {
+        let cp = cur_ptr as *mut Obj;
+        let np = new_ptr as *mut Obj;
+        let ci = if cp == model::ptr(0) as *mut Obj { 0 } else if cp == model::ptr(1) as *mut Obj { 1 } else { 2 };
+        let same_new = if np == cp { 1 } else { 0 };
+        let expect = unsafe { M_C0[ci] + M_ENV_ADDED[ci] } + 1 + same_new;
+        if model::cnt(ci) != expect {
+            unsafe { M_UNPINNED += 1 };
+        }
+    }
     let st: &crate::verif::AtomicPtr<T::Base> = &this.ptr;
     // TP is the only instantiation: the environment works on the same cell
     m_env_step(unsafe { &*(st as *const crate::verif::AtomicPtr<T::Base> as *const crate::verif::AtomicPtr<Obj>) });
@@ -1291,9 +1305,11 @@ fn mod_rcu(lost: usize, any_env: bool) {
         M_CAS_OK = 0;
         M_BAD_EXPECTED = 0;
         M_BAD_NEW = 0;
+        M_UNPINNED = 0;
         M_F_CALLS = 0;
     }
     let c0 = [model::cnt(0), model::cnt(1), model::cnt(2)];
+    unsafe { M_C0 = c0 };
     hooks_on();
     let w_write = model::watch(model::K_WRITE, storage_addr(&s));
     let w_any = model::watch(model::K_CAS_ANY, storage_addr(&s));
@@ -1304,6 +1320,7 @@ fn mod_rcu(lost: usize, any_env: bool) {
     vassert!(model::w(w_write).count == 0 && model::w(w_any).count == 0, "rcu_writes_the_storage_only_through_compare_and_swap");
     vassert!(unsafe { M_BAD_EXPECTED } == 0, "rcu_every_exchange_expects_the_value_passed_to_the_closure");
     vassert!(unsafe { M_BAD_NEW } == 0, "rcu_every_exchange_installs_the_result_of_the_closure_call_it_belongs_to");
+    vassert!(unsafe { M_UNPINNED } == 0, "rcu_keeps_the_value_passed_to_the_closure_alive_until_the_exchange");
     vassert!(unsafe { M_CAS_OK } == 1, "rcu_performs_exactly_one_successful_exchange");
     vassert!(unsafe { M_F_CALLS == M_CAS_CALLS }, "rcu_one_closure_call_per_exchange");
     if !any_env {
